@@ -422,7 +422,8 @@ func init() {
 }
 
 // The keyword set of L007 is OBSERVED, not read from the source: a word W (upper case) is a keyword iff the exported rule
-// (keywords.NewKeywordCaseRule(CaseUpper), Check on a text that consists of the word) flags its lower-case spelling.
+// (keywords.NewKeywordCaseRule(CaseUpper) on a text that consists of the word in lower case) flags the word as a whole
+// (one violation, at column 1) and its Fix gives W.
 // How the rule stores the set (map literal, sorted list, generated table, another package) does not matter.
 //
 // Candidates: every word of every string literal of the non-test sources under pkg/linter (however the set is
@@ -547,10 +548,11 @@ func lintAlternating(w string) string {
 func lintObserveKeywords(words []string) (kws []string, incons []lintKwIncons) {
 	kws, incons = []string{}, []lintKwIncons{}
 	up, lo := keywords.NewKeywordCaseRule(keywords.CaseUpper), keywords.NewKeywordCaseRule(keywords.CaseLower)
-	ask := func(r *keywords.KeywordCaseRule, text string) (n int, fix string, pn string) {
+	ask := func(r *keywords.KeywordCaseRule, text string) (n int, fix string, pn string, whole bool) {
 		pn = guarded(func() {
 			vs, _ := r.Check(linter.NewContext(text, "case.sql"))
 			n = len(vs)
+			whole = n == 1 && vs[0].Location.Line == 1 && vs[0].Location.Column == 1
 			fix, _ = r.Fix(text, vs)
 		})
 		return
@@ -563,8 +565,10 @@ func lintObserveKeywords(words []string) (kws []string, incons []lintKwIncons) {
 			continue // no letter with two cases, or case images that do not round-trip: not a spelling the set is asked about
 		}
 		seen[W] = true
-		n0, _, pn0 := ask(up, l)
-		isKw := n0 > 0 && pn0 == ""
+		// a keyword: the word as a whole is flagged (one violation, at its first character) and re-cased as a whole; a
+		// rule that flags a part of the word, or flags without re-casing, shows up below as an inconsistency
+		_, fix0, pn0, whole0 := ask(up, l)
+		isKw := pn0 == "" && whole0 && fix0 == W
 		if isKw {
 			kws = append(kws, W)
 		}
@@ -581,7 +585,7 @@ func lintObserveKeywords(words []string) (kws []string, incons []lintKwIncons) {
 				r    *keywords.KeywordCaseRule
 				pref string
 			}{{"upper", up, W}, {"lower", lo, l}} {
-				n, fix, pn := ask(st.r, sp)
+				n, fix, pn, _ := ask(st.r, sp)
 				wantN, wantFix := 0, sp
 				if isKw {
 					wantFix = st.pref
